@@ -55,6 +55,12 @@ namespace cxx11_atomic {
     namespace atomics = cds::cxx11_atomic;
 #   define CDS_CXX11_ATOMIC_BEGIN_NAMESPACE namespace cds { namespace cxx11_atomic {
 #   define CDS_CXX11_ATOMIC_END_NAMESPACE }}
+#elif defined(KHIZMAX_LIBCDS_VERIF)
+    // verification hook: instrumented atomics (deterministic scheduler + event log), found through -I<verif>/hooks/include
+#   include <khizmax_libcds_verif/atomic.h>
+    namespace atomics = khizmax_libcds_verif;
+#   define CDS_CXX11_ATOMIC_BEGIN_NAMESPACE namespace khizmax_libcds_verif {
+#   define CDS_CXX11_ATOMIC_END_NAMESPACE }
 #else
     // Compiler provided C++11 atomic
 #   include <atomic>
